@@ -158,6 +158,13 @@ def multi_branch_programs():
         yield {"calls": [["update", T], ["set", "a", e], ["where", ["cmp", "=", fid, raw(3)]]]}
         yield {"calls": [["into", T], ["insert", [e, raw("tail")]]]}
         yield {"calls": [["from", T], ["select", [["agg", "SUM", e]]], ["groupby", [fb]], ["having", ["cmp", ">", ["agg", "MAX", e], raw(8)]]]}
+    # aggregates with FILTER, window functions and DISTINCT ON whose parts all carry values
+    af = ["aggf", "SUM", ["coalesce", [fa, raw(100)]], ["cmp", ">", fb, raw(1)]]
+    wn = ["win", "SUM", [["arith", "+", fa, raw(7)]], [["arith", "*", fb, raw(2)]], [[["arith", "-", fa, raw(3)], "desc"], [["arith", "+", fb, raw(4)], "asc"]]]
+    yield {"calls": [["from", T], ["select", [af, fb]], ["where", ["cmp", "=", fb, raw(5)]], ["groupby", [fb]]]}
+    yield {"calls": [["from", T], ["select", [fb]], ["groupby", [fb]], ["having", ["cmp", ">", af, raw(9)]], ["limit", 2]]}
+    yield {"calls": [["from", T], ["select", [["as", wn, "w"], fb]], ["where", ["cmp", "=", fb, raw(5)]]]}
+    yield {"calls": [["from", T], ["distinct_on", [["arith", "+", fa, raw(31)], fb]], ["select", [["arith", "*", fa, raw(32)], ["lit", 33]]], ["where", ["cmp", "=", fb, raw(34)]]]}
     # arrays that mix columns / expressions with constants
     for arr in (["array", [fa, raw(1)]], ["array", [raw(1), fa, raw("x")]], ["array", [["arith", "+", fa, raw(2)], fb]]):
         yield {"calls": [["from", T], ["select", [arr, fb]], ["where", ["cmp", "=", fb, raw(5)]]]}
@@ -406,7 +413,7 @@ def run_case(case):
     try:
         o = prog.build(p, dialect=d)
     except Exception as e:
-        specific = {"returning": ("postgresql",), "fetch_next": ("mssql",), "top": ("mssql",)}
+        specific = {"returning": ("postgresql",), "fetch_next": ("mssql",), "top": ("mssql",), "distinct_on": ("postgresql",)}
         calls = {c[0] for c in p["calls"]}
         bare_list_row = any(c[0] == "insert" and c[1] and c[1][0][0] == "raw" and isinstance(c[1][0][1], list) and c[1][0][1][:1] == ["$list"]
                             for c in p["calls"])  # insert(<list>, ...): a bare list in first place is a row, not a value
